@@ -1,7 +1,9 @@
 /-
 C45 — model of breezy/filters/eol.py (`_to_lf_converter`, `_to_crlf_converter`,
 `_eol_filter_stack_map`) and of the filter application in
-breezy/filters/__init__.py (`filtered_output_bytes`, `filtered_input_file`).
+breezy/filters/__init__.py (`filtered_output_bytes`, `filtered_input_file`,
+`FilteredStat`) and of what `ContentFilterAwareSHA1Provider`
+(breezy/bzr/workingtree_4.py) hashes and reports as size.
 
 Python `bytes` is `List UInt8`; a converter maps a list of chunks to a list
 with one chunk (`[b"".join(chunks)]` converted).
@@ -90,6 +92,37 @@ def writeOut (stack : List Filter) (c : Bytes) : Bytes := (outputBytes [c] stack
 
 /-- working tree → canonical content -/
 def readIn (stack : List Filter) (d : Bytes) : Bytes := inputFile d stack
+
+/-! ### the filtered SHA-1 provider (breezy/bzr/workingtree_4.py:
+`ContentFilterAwareSHA1Provider`) and `FilteredStat` -/
+
+/-- `_get_filter_stack_for(prefs)` for the one registered preference `eol`:
+`none` = no rule matched the path / the section does not set `eol` (value
+`None` is skipped, `()` gives the empty stack); an unknown value is an error -/
+def prefStack (win : Bool) : Option String → Option (List Filter)
+  | none => some []
+  | some key => eolLookup win key
+
+/-- `FilteredStat(base, st_size)`: `self.st_size = st_size or base.st_size` —
+a filtered size of 0 falls back to the size on disk -/
+def filteredStatSize (filtered base : Nat) : Nat := if filtered = 0 then base else filtered
+
+/-- what `sha1` / `stat_and_sha1` / `internal_size_sha_file_byname` hash for a
+file with bytes `d` on disk: `if filters:` the read-converted text, else the file -/
+def hashedText (stack : List Filter) (d : Bytes) : Bytes :=
+  if stack.isEmpty then d else readIn stack d
+
+/-- `stat_and_sha1(abspath)[0].st_size`: the plain `fstat` size when the stack
+is empty, else `FilteredStat(statvalue, len(text)).st_size` -/
+def statSize (stack : List Filter) (d : Bytes) : Nat :=
+  if stack.isEmpty then d.length else filteredStatSize (readIn stack d).length d.length
+
+/-- the dirstate's decision for a file whose recorded hash is `recorded` and
+whose bytes on disk are `disk`, for an abstract hash function `sha`: the file
+is reported as modified iff the hash of the read-converted file differs -/
+def reportsChange {H : Type} [DecidableEq H] (sha : Bytes → H) (stack : List Filter)
+    (recorded : H) (disk : Bytes) : Bool :=
+  sha (hashedText stack disk) != recorded
 
 /-! ### predicates used by the theorems -/
 
